@@ -40,6 +40,16 @@ CHECKS = {
              'closed-loop part explores generated histories (deletions racing open cycles, released objects at first sight, '
              'restarts) - bounded exploration.',
         design_ref='5/C05'),
+    'C15': dict(
+        technique='bounded-exhaustive enumeration (itertools.product over a criteria alphabet, sampled in quick, complete in thorough) '
+                  'of handler declarations x object states x causes through the public decorators, differential against an executable '
+                  'reading of docs/filters.rst; plus property-based closed-loop histories (Hypothesis) with filtered handlers',
+        text='L1 compares registry.get_handlers() with an independent matcher on ~1.5 million (declaration, state, cause) combinations '
+             '(all of them in the thorough tier, a seed-dependent 1/16 sample in quick); L2 runs generated label/field/when-filtered '
+             'operators in the closed loop and checks that every invocation satisfies its criteria on the view it got and that '
+             'objects matched by no handler receive no operator write. One listed known finding (value= on create/resume/delete) is '
+             'identified by an executable predicate and excluded so that the rest of the space is still compared.',
+        design_ref='5/C15'),
 }
 
 REASON_TODO = 'no check is registered for it yet in this revision (planned; see DESIGN.md section 9)'
